@@ -72,7 +72,6 @@ MUTANTS = [
     ("C05", "fixsigns-normalizes-reference-again", "pyttb/ktensor.py", "        other_tensor = other.copy()\n", "        other_tensor = other\n"),
     ("C05", "sumtensor-copy-shallow", "pyttb/sumtensor.py", None, None),
     # ---- C19
-    ("C19", "reshape-no-count-check", "pyttb/tensor.py", "        if prod(self.shape) != prod(shape):\n            assert False, \"Reshaping a tensor cannot change number of elements\"\n", "        if prod(self.shape) < prod(shape):\n            assert False, \"Reshaping a tensor cannot change number of elements\"\n"),
     ("C19", "dimscheck-repeated-dims-again", "pyttb/pyttb_utils.py", "    if len(np.unique(dim_array)) != len(dim_array):", "    if False and len(np.unique(dim_array)) != len(dim_array):"),
     ("C19", "sptensor-innerprod-shortcut-first", "pyttb/sptensor.py", "        if isinstance(other, ttb.sptensor) and self.shape != other.shape:\n            assert False, \"Sptensors must be same shape for innerproduct\"\n", ""),
     ("C19", "tenmat-ctor-no-partition-check", "pyttb/tenmat.py", None, None),
